@@ -86,7 +86,7 @@ CHECKS = {
         design="6 C15"),
     "C11": dict(
         level="other",
-        technique="Tracker.tla random-walk algebra bound to the real Tracker by exact lattice trace validation with a scripted random generator (TrackTrace); seeded statistics of 10^5-particle clouds evaluated by TLC (StatTrace) for the distributional residue",
+        technique="Tracker.tla random-walk algebra model-checked under an exact symmetric unit-variance distribution (MC_Walk: all assignments of +-1 draws enumerated - zero mean, variance adds up linearly, no covariance between directions / particles; control with a shared block refuted) and bound to the real Tracker by exact lattice trace validation with a scripted random generator (TrackTrace); seeded statistics of 10^5-particle clouds evaluated by TLC (StatTrace) for the distributional residue",
         text="Decided exactly: displacement = sqrt(2 D dt) xi / dx per horizontal direction and sqrt(2 Dz dt) xi in depth for (D, dt) over four orders of magnitude, one fresh standard-normal draw per particle x direction x step (U/V block order either way), D and Dz kept apart when both are on, no draw and identical results when the coefficients are zero. Not decidable with TLA+: that numpy's generator is standard normal and independent - covered by seeded statistics (mean, variance 2Dt / 2Dzt, U-V covariance, lag-1) inside 6 sigma bands.",
         note="level 'other': exact conformance for the code's contribution + exploration-level statistics for the generator (DESIGN 7).",
         design="6 C11"),
